@@ -84,8 +84,9 @@ def psd_factor(G_value):
     return (V * ev) @ V.T
 
 
-def instance(pep, held=(), tol=1e-6):
-    """Checks the primal instance; returns a list of (key, message)."""
+def instance(pep, held=(), tol=1e-6, solver_G=None, solver_F=None):
+    """Checks the primal instance; returns a list of (key, message).
+    solver_G / solver_F: the primal solution as read from the solver object itself (independent of pep.G_value)."""
     from PEPit.point import Point
     from PEPit.expression import Expression
     from PEPit.constraint import Constraint
@@ -95,6 +96,16 @@ def instance(pep, held=(), tol=1e-6):
     nP = Point.counter
     scale = max(1.0, float(np.abs(Gv).max()) if Gv.size else 1.0, float(np.abs(Fv).max()) if Fv.size else 1.0)
     t = tol * scale
+    if solver_G is not None:
+        sg = np.array(solver_G, dtype=float)
+        if sg.shape != Gv.shape or np.abs(sg - Gv).max(initial=0.0) > t:
+            probs.append(("instance:not-solver-gram", "PEP.G_value differs from the Gram matrix found by the solver by %.2e"
+                          % (np.abs(sg - Gv).max(initial=0.0) if sg.shape == Gv.shape else float("nan"))))
+    if solver_F is not None:
+        sf = np.array(solver_F, dtype=float)
+        k = min(len(sf), len(Fv))
+        if k and np.abs(sf[:k] - Fv[:k]).max() > t:
+            probs.append(("instance:not-solver-fvalues", "PEP.F_value differs from the function values found by the solver"))
     # leaf points reproduce the PSD projection of the Gram matrix
     try:
         P = np.array([pt.eval() for pt in Point.list_of_leaf_points]).T if nP else np.zeros((0, 0))
@@ -165,4 +176,9 @@ def instance(pep, held=(), tol=1e-6):
             continue
         if bad:
             probs.append(("instance:held", "held object %s does not evaluate to the combination of its operands' values" % name))
+    # evaluating objects must not disturb the leaves: evaluate the leaves again
+    if nP:
+        P2 = np.array([pt.eval() for pt in Point.list_of_leaf_points]).T
+        if P2.shape != P.shape or np.abs(P2 - P).max(initial=0.0) > 0:
+            probs.append(("instance:leaves-changed-by-eval", "evaluating derived objects changed the values of leaf points"))
     return probs
